@@ -173,6 +173,8 @@ func genScenario(t *rapid.T) scenario {
 			vals = []string{rapid.SampledFrom([]string{"admin.example.com", "evil.example.com"}).Draw(t, "v")}
 		case "X-Forwarded-Uri":
 			vals = []string{rapid.SampledFrom([]string{"/admin/secret?as=root", "/admin/x%20y?b=2&a=1", "/public/other?q=1", "/admin/secret", "/public/other",
+				// (a comma is an ordinary character of a path and of a query)
+				"/admin/a,b/c?fields=id,name&x=1", "/public/1,2?q=a,b",
 				// request targets a client can make a proxy forward: a path starting with two slashes (which reads like an
 				// authority) and the absolute form; only path and query are this header's business
 				"//evil.example.com/admin/secret?as=root", "https://evil.example.com/admin/secret?as=root"}).Draw(t, "v")}
